@@ -189,7 +189,9 @@ Print Assumptions C01_strlit_concat_in_guard.
    transpiler's own inference labels it String *)
 Theorem C01_charp_src_meaning : forall G rho e,
   charp_src e = true ->
-  (forall v, peval rho e = Ok v -> is_strv v = true) /  (forall c t, to_c G e = TOk c -> ctype (tc_types G) c = Some t -> t = TCharP) /  infer G e = Some LString.
+  (forall v, peval rho e = Ok v -> is_strv v = true) /\
+  (forall c t, to_c G e = TOk c -> ctype (tc_types G) c = Some t -> t = TCharP) /\
+  infer G e = Some LString.
 Proof.
   exact (fun G rho e H => conj (fun v => charp_src_str rho e v H)
                          (conj (fun c t => charp_src_charp G e c t H) (charp_src_infer G e H))).
